@@ -186,6 +186,83 @@ func signPayloadOf(u ucan.View) (alg string, payload string, err error) {
 	return alg, payload, err
 }
 
+// issueUnguarded builds the token the way ucan.Issue did before encodeSignaturePayload got its guard
+// (fixes/C07_signable.diff): the formatter's string signed as is.  Used when Issue refuses a payload, to
+// observe that VerifySignature refuses it too (and, on a tree without the guard, nothing changes).
+func issueUnguarded(iss ucan.Signer, aud ucan.Principal, caps []ucan.Capability[ucan.CaveatBuilder], exp *int, nbf int, nnc string,
+	facts []factB, prf []ipld.Link) (*udm.UCANModel, error) {
+	var capsmdl []udm.CapabilityModel
+	for _, c := range caps {
+		nb, err := c.Nb().ToIPLD()
+		if err != nil {
+			return nil, err
+		}
+		capsmdl = append(capsmdl, udm.CapabilityModel{With: c.With(), Can: c.Can(), Nb: nb})
+	}
+	var prfstrs []string
+	for _, l := range prf {
+		prfstrs = append(prfstrs, l.String())
+	}
+	var fctsmdl []udm.FactModel
+	for _, f := range facts {
+		var ks []string
+		for k := range f.m {
+			ks = append(ks, k)
+		}
+		fctsmdl = append(fctsmdl, udm.FactModel{Keys: ks, Values: f.m})
+	}
+	payload := pdm.PayloadModel{Iss: iss.DID().String(), Aud: aud.DID().String(), Att: capsmdl, Prf: prfstrs, Exp: exp, Fct: fctsmdl}
+	model := udm.UCANModel{V: "0.9.1", Iss: iss.DID().Bytes(), Aud: aud.DID().Bytes(), Att: capsmdl, Prf: prf, Exp: exp, Fct: fctsmdl}
+	if nnc != "" {
+		payload.Nnc, model.Nnc = &nnc, &nnc
+	}
+	if nbf != 0 {
+		payload.Nbf, model.Nbf = &nbf, &nbf
+	}
+	str, err := formatter.FormatSignPayload(payload, "0.9.1", iss.SignatureAlgorithm())
+	if err != nil {
+		return nil, err
+	}
+	model.S = iss.Sign([]byte(str)).Bytes()
+	return &model, nil
+}
+
+// sanitizeNode rebuilds n with every string and map key made valid UTF-8 (entries whose keys collide are dropped)
+func sanitizeNode(n datamodel.Node) datamodel.Node {
+	switch n.Kind() {
+	case datamodel.Kind_String:
+		s, _ := n.AsString()
+		return basicnode.NewString(strings.ToValidUTF8(s, "?"))
+	case datamodel.Kind_List:
+		nb := basicnode.Prototype.List.NewBuilder()
+		la, _ := nb.BeginList(n.Length())
+		for it := n.ListIterator(); !it.Done(); {
+			_, v, _ := it.Next()
+			la.AssembleValue().AssignNode(sanitizeNode(v))
+		}
+		la.Finish()
+		return nb.Build()
+	case datamodel.Kind_Map:
+		seen := map[string]bool{}
+		nb := basicnode.Prototype.Map.NewBuilder()
+		ma, _ := nb.BeginMap(n.Length())
+		for it := n.MapIterator(); !it.Done(); {
+			k, v, _ := it.Next()
+			ks, _ := k.AsString()
+			ks = strings.ToValidUTF8(ks, "?")
+			if seen[ks] {
+				continue
+			}
+			seen[ks] = true
+			ma.AssembleKey().AssignString(ks)
+			ma.AssembleValue().AssignNode(sanitizeNode(v))
+		}
+		ma.Finish()
+		return nb.Build()
+	}
+	return n
+}
+
 // rewriteFirst rebuilds n with the first node (depth first) for which f returns a replacement replaced
 func rewriteFirst(n datamodel.Node, f func(datamodel.Node) (datamodel.Node, bool)) (datamodel.Node, bool) {
 	if r, ok := f(n); ok {
@@ -485,6 +562,12 @@ func c07Alterations() []c07Alteration {
 // writeSignShards writes cases_<tag>_sign_NN.v: check_sign_memo (proved equal to check_sign) computes the DID
 // string of each distinct principal of the shard once
 func writeSignShards(dir, tag string, cases []string, dids [][][]byte, shards int) error {
+	return writeSignShardsFn(dir, tag, "check_sign_memo", cases, dids, shards)
+}
+
+// writeSignShardsFn: fn is check_sign_memo (formatter.FormatSignPayload) or check_input_memo (with the guard of
+// encodeSignaturePayload: None when Issue / VerifySignature returned its error)
+func writeSignShardsFn(dir, tag, fn string, cases []string, dids [][][]byte, shards int) error {
 	if len(cases) == 0 {
 		return nil
 	}
@@ -509,7 +592,7 @@ func writeSignShards(dir, tag string, cases []string, dids [][][]byte, shards in
 		defs, body := internPk("(" + coqList(ds) + ", " + coqList(cases[k*per:hi]) + ")")
 		sb.WriteString(defs)
 		fmt.Fprintf(&sb, "Definition input : list bstr * list (N * bstr * utoken * option bstr) := %s.\n", body)
-		sb.WriteString("Definition M := Eval vm_compute in check_sign_memo (fst input) (snd input).\nPrint M.\n")
+		fmt.Fprintf(&sb, "Definition M := Eval vm_compute in %s (fst input) (snd input).\nPrint M.\n", fn)
 		if err := writeFile(dir, fmt.Sprintf("cases_%s_sign_%02d.v", tag, k), sb.String()); err != nil {
 			return err
 		}
@@ -545,14 +628,14 @@ func init() {
 		collHist := map[string]int{}
 		optHist := map[string]int{}
 		altHist := map[string]int{}
-		nverify, nalter := 0, 0
+		nverify, nalter, nrefused := 0, 0, 0
 		var samples []any
 		var undecodable []map[string]any
 		for i := 0; i < n; i++ {
 			iss := issuers[i%len(issuers)]
 			aud := keys[r.Intn(len(keys))]
 			var audP ucan.Principal = aud.DID
-			if i%16 == 7 { // the undefined DID as audience (Delegate accepts it)
+			if i%16 == 7 { // the undefined DID as audience
 				audP = did.Undef
 			} else if i%5 == 3 { // a generic (non-key) audience DID whose text is not valid UTF-8
 				if wd, err := did.Decode(append([]byte{0x9d, 0x1a}, []byte(fmt.Sprintf("web:ex\xffample%d.com", r.Intn(10)))...)); err == nil {
@@ -565,18 +648,28 @@ func init() {
 				mask = r.Intn(64)
 			}
 			var opts []delegation.Option
+			var rawExp *int
+			rawNbf, rawNnc := 0, ""
+			var rawFacts []factB
+			var rawPrf []ipld.Link
 			if mask&2 != 0 {
 				opts = append(opts, delegation.WithNoExpiration())
 			} else if mask&1 != 0 {
-				opts = append(opts, delegation.WithExpiration(4000000000+r.Intn(1000)))
+				e := 4000000000 + r.Intn(1000)
+				rawExp = &e
+				opts = append(opts, delegation.WithExpiration(e))
 			} else {
-				opts = append(opts, delegation.WithExpiration(int(ucan.Now())+1000)) // the default (now+30) is the only non-deterministic input
+				e := int(ucan.Now()) + 1000 // the default (now+30) is the only non-deterministic input
+				rawExp = &e
+				opts = append(opts, delegation.WithExpiration(e))
 			}
 			if mask&4 != 0 {
-				opts = append(opts, delegation.WithNotBefore(1+r.Intn(1000)))
+				rawNbf = 1 + r.Intn(1000)
+				opts = append(opts, delegation.WithNotBefore(rawNbf))
 			}
 			if mask&8 != 0 {
-				opts = append(opts, delegation.WithNonce(fmt.Sprintf("nonce-%d", r.Intn(1000))))
+				rawNnc = fmt.Sprintf("nonce-%d", r.Intn(1000))
+				opts = append(opts, delegation.WithNonce(rawNnc))
 			}
 			if mask&16 != 0 {
 				var facts []ucan.FactBuilder
@@ -587,16 +680,22 @@ func init() {
 						if nodeHasFloat(nd) || nd.Kind() == datamodel.Kind_Null {
 							nd = basicnode.NewInt(7)
 						}
+						if i%4 != 2 { // three tokens in four carry only valid UTF-8 (the others are mostly refused by Issue)
+							k, nd = strings.ToValidUTF8(k, "?"), sanitizeNode(nd)
+						}
 						m[k] = nd
 					}
 					facts = append(facts, factB{m})
+					rawFacts = append(rawFacts, factB{m})
 				}
 				opts = append(opts, delegation.WithFacts(facts))
 			}
 			if mask&32 != 0 {
 				var prfs []delegation.Proof
 				for p := 1 + r.Intn(3); p > 0; p-- {
-					prfs = append(prfs, delegation.FromLink(cidlink.Link{Cid: randCid(r, cst)}))
+					l := cidlink.Link{Cid: randCid(r, cst)}
+					rawPrf = append(rawPrf, l)
+					prfs = append(prfs, delegation.FromLink(l))
 				}
 				opts = append(opts, delegation.WithProof(prfs...))
 			}
@@ -606,14 +705,17 @@ func init() {
 				if nodeHasFloat(nd) || nd.Kind() == datamodel.Kind_Null {
 					nd = basicnode.NewString("no floats / bare null as caveats")
 				}
-				if i%3 == 1 && len(caps) == 0 { // caveats holding bytes, a link, an integer and a string with an invalid UTF-8 byte
+				if i%4 != 2 {
+					nd = sanitizeNode(nd)
+				}
+				if i%3 == 1 && len(caps) == 0 { // caveats holding bytes, a link, an integer and (one time in four) a string with an invalid UTF-8 byte
 					nb := basicnode.Prototype.Map.NewBuilder()
 					ma, _ := nb.BeginMap(5)
 					for _, e := range []struct {
 						k string
 						v datamodel.Node
 					}{{"blob", basicnode.NewBytes(randBytes(r, r.Intn(6)))}, {"ref", basicnode.NewLink(cidlink.Link{Cid: randCid(r, cst)})},
-						{"n", basicnode.NewInt(int64(r.Intn(1000) - 500))}, {"s", basicnode.NewString("caf\xc3" + pick(r, []string{"", "x", "\xa9\xff"}))}, {"r", nd}} {
+						{"n", basicnode.NewInt(int64(r.Intn(1000) - 500))}, {"s", basicnode.NewString("caf\xc3" + pick(r, []string{"\xa9", "\xa9", "\xa9", "", "x", "\xa9\xff"}))}, {"r", nd}} {
 						ma.AssembleKey().AssignString(e.k)
 						ma.AssembleValue().AssignNode(e.v)
 					}
@@ -623,12 +725,27 @@ func init() {
 				caps = append(caps, ucan.NewCapability[ucan.CaveatBuilder](pick(r, abilities), pick(r, []string{iss.DID.String(), "ucan:*", "https://example.com/ü"}), nodeNb{nd}))
 			}
 			d, err := delegation.Delegate(iss.Signer, audP, caps, opts...)
+			refused := false
 			if err != nil {
-				// e.g. an unsigned caveat integer above int64: the dag-json payload cannot be built, Issue returns an error
-				optHist["unissuable"]++
-				continue
+				// Issue refused the payload: checkSignable (invalid UTF-8, reserved slash map, undefined audience) or the dag-json
+				// payload cannot be built (an unsigned caveat integer above int64).  Build the token without the guard.
+				um, uerr := issueUnguarded(iss.Signer, audP, caps, rawExp, rawNbf, rawNnc, rawFacts, rawPrf)
+				if uerr != nil {
+					optHist["unissuable"]++
+					continue
+				}
+				ud, _, derr := reDecode(um)
+				if derr != nil {
+					optHist["unissuable"]++
+					continue
+				}
+				d, refused = ud, true
+				nrefused++
 			}
 			label := fmt.Sprintf("mask=%06b issuer=%s caps=%d", mask, iss.Name, len(caps))
+			if refused {
+				label += " refused-by-Issue"
+			}
 			optHist[fmt.Sprintf("%06b", mask)]++
 			model := d.Data().Model()
 			if model.V == "" {
@@ -647,19 +764,24 @@ func init() {
 				return uerr
 			}
 			cases = append(cases, fmt.Sprintf("(%d, %s, %s)", i, ut, hx(d.Root().Bytes())))
-			// (a') the exact bytes handed to Sign / Verify
-			alg, sp, sperr := signPayloadOf(d.Data())
-			signCases = append(signCases, fmt.Sprintf("(%d, %s, %s, %s)", i, hxs(alg), ut, coqOptBytes([]byte(sp), sperr == nil)))
-			signDids = append(signDids, [][]byte{model.Iss, model.Aud})
 			// (b) behaviour: fresh
 			nverify++
 			okv, verr := ucan.VerifySignature(d.Data(), iss.Real)
-			if verr != nil || !okv {
+			switch {
+			case refused && (okv || verr == nil):
+				direct = append(direct, map[string]any{"token": i, "label": label, "key": "issue-guard-mismatch",
+					"what": "Issue refused the payload but VerifySignature accepts a token carrying it", "root_hex": fmt.Sprintf("%x", d.Root().Bytes())})
+			case !refused && (verr != nil || !okv):
 				direct = append(direct, map[string]any{"token": i, "label": label, "what": "freshly issued token does not verify against its issuer", "err": fmt.Sprint(verr)})
 			}
+			// (a') the exact bytes handed to Sign / Verify, or None when encodeSignaturePayload returned an error
+			// (observed through VerifySignature: its only other error is an unknown signature code)
+			alg, sp, sperr := signPayloadOf(d.Data())
+			signCases = append(signCases, fmt.Sprintf("(%d, %s, %s, %s)", i, hxs(alg), ut, coqOptBytes([]byte(sp), sperr == nil && verr == nil)))
+			signDids = append(signDids, [][]byte{model.Iss, model.Aud})
 			// transported: re-decode from the root block bytes
 			td, _, err := reDecode(model)
-			if err == nil {
+			if err == nil && !refused {
 				okv, verr = ucan.VerifySignature(td.Data(), iss.Real)
 				if verr != nil || !okv {
 					direct = append(direct, map[string]any{"token": i, "label": label, "what": "token does not verify after encode/decode", "err": fmt.Sprint(verr)})
@@ -692,7 +814,7 @@ func init() {
 				}
 				nalter++
 				altHist[a.name]++
-				okv, _ := ucan.VerifySignature(ad.Data(), iss.Real)
+				okv, averr := ucan.VerifySignature(ad.Data(), iss.Real)
 				if okv {
 					e := map[string]any{"token": i, "label": label, "alteration": a.name,
 						"what": "token still verifies after altering " + a.name, "root_hex": fmt.Sprintf("%x", ad.Root().Bytes()),
@@ -710,7 +832,7 @@ func init() {
 				if akey != "" && akey != "json-integral-float" {
 					if aut, err := utokenCoqFromBytes(ad.Root().Bytes()); err == nil {
 						alg, sp, sperr := signPayloadOf(ad.Data())
-						signCases = append(signCases, fmt.Sprintf("(%d, %s, %s, %s)", 1000000+i, hxs(alg), aut, coqOptBytes([]byte(sp), sperr == nil)))
+						signCases = append(signCases, fmt.Sprintf("(%d, %s, %s, %s)", 1000000+i, hxs(alg), aut, coqOptBytes([]byte(sp), sperr == nil && averr == nil)))
 						signDids = append(signDids, [][]byte{m.Iss, m.Aud})
 					}
 				}
@@ -737,7 +859,7 @@ func init() {
 				return err
 			}
 		}
-		if err := writeSignShards(o.out, "C07", signCases, signDids, shards); err != nil {
+		if err := writeSignShardsFn(o.out, "C07", "check_input_memo", signCases, signDids, shards); err != nil {
 			return err
 		}
 		keysSorted := make([]string, 0, len(optHist))
@@ -746,7 +868,7 @@ func init() {
 		}
 		sort.Strings(keysSorted)
 		return writeJSON(o.out, "stats.json", map[string]any{"tokens": n, "verify_calls": nverify, "alterations_checked": nalter,
-			"option_masks_covered": len(optHist), "alteration_histogram": altHist, "collision_histogram": collHist, "sign_cases": len(signCases), "direct_violations": direct, "samples": samples, "issued_but_undecodable": undecodable,
+			"option_masks_covered": len(optHist), "alteration_histogram": altHist, "collision_histogram": collHist, "sign_cases": len(signCases), "issue_refused": nrefused, "direct_violations": direct, "samples": samples, "issued_but_undecodable": undecodable,
 			"value_kinds": cst})
 	}
 }
